@@ -8,6 +8,7 @@ Variables (name value : Type).
 Variable eqb : name -> name -> bool.
 Variable num : name -> option nat.
 Variable blank : value -> value.                 (* _blank_param_value *)
+Variable unescapable : value -> bool.            (* the value holds an '=' inside an external link or a heading *)
 
 Record param := { pn : name; shown : bool; pv : value }.
 
@@ -49,7 +50,12 @@ Definition expected (ps : list param) : nat :=
 Fixpoint set_last (n : name) (v : value) (ps : list param) : list param :=
   match ps with
   | [] => []
-  | p :: t => if eqb n (pn p) && negb (has n t) then {| pn := pn p; shown := shown p; pv := v |} :: t
+  | p :: t => if eqb n (pn p) && negb (has n t) then
+                (* a hidden key is written out when the value has an "=" that cannot be escaped; the hidden
+                   parameters after it would move up one position, so their keys are written out too
+                   (_fix_dependendent_params) *)
+                if negb (shown p) && unescapable v then {| pn := pn p; shown := true; pv := v |} :: map show t
+                else {| pn := pn p; shown := shown p; pv := v |} :: t
               else p :: set_last n v t
   end.
 
@@ -58,7 +64,7 @@ Definition add (n : name) (v : value) (ps : list param) : list param :=
   if has n ps then set_last n v (rem n true false ps)
   else
     let showkey := match num n with
-                   | Some k => negb (Nat.eqb (expected ps) k)
+                   | Some k => if Nat.eqb (expected ps) k then unescapable v else true
                    | None => true
                    end in
     ps ++ [{| pn := n; shown := showkey; pv := v |}].
